@@ -145,6 +145,14 @@ def s_bool_like(x):
     return builtins.bool(x)
 
 
+def s_bin(x):
+    return "0b<%r>" % (x,) if _isinstance(x, SymInt) else builtins.bin(x)
+
+
+def s_hex(x):
+    return "0x<%r>" % (x,) if _isinstance(x, SymInt) else builtins.hex(x)
+
+
 SHADOW = dict(builtins.__dict__)
 SHADOW.update({
     "int": ShadowInt,
@@ -155,6 +163,8 @@ SHADOW.update({
     "abs": s_abs,
     "round": s_round,
     "float": s_float,
+    "bin": s_bin,
+    "hex": s_hex,
 })
 
 
